@@ -297,6 +297,32 @@ func (e *SEnv) tr(x *SX) *SVal {
 		return e.unary(x)
 	case "bin":
 		return e.binary(x)
+	case "lit":
+		t := e.resolveType(x.Tok)
+		st, ok := t.Underlying().(*types.Struct)
+		if !ok || g.isOpaqueStruct(t) {
+			e.fail("composite literal of non-struct %s", x.Tok)
+		}
+		if len(x.Args) != st.NumFields() {
+			e.fail("composite literal %s needs %d positional fields", x.Tok, st.NumFields())
+		}
+		g.sortOf(t)
+		var parts []string
+		for i, a := range x.Args {
+			v := e.coerceTo(e.tr(a), st.Field(i).Type())
+			if v.T != nil && g.sortOf(v.T) != g.sortOf(st.Field(i).Type()) {
+				e.fail("field %d of %s: have %s", i, x.Tok, v.T)
+			}
+			vt := v.V.T
+			if vt == "" && v.V.A != nil {
+				vt = g.ptrTerm(v.V.A)
+			}
+			parts = append(parts, vt)
+		}
+		if len(parts) == 0 {
+			return &SVal{V: &Val{T: "mk$" + g.structName(t)}, T: t}
+		}
+		return &SVal{V: &Val{T: fmt.Sprintf("(mk$%s %s)", g.structName(t), strings.Join(parts, " "))}, T: t}
 	case "assert":
 		v := e.tr(x.Args[0])
 		if _, ok := v.T.Underlying().(*types.Interface); !ok {
@@ -787,6 +813,9 @@ func (e *SEnv) callExpr(x *SX) *SVal {
 	args := x.Args[1:]
 	// old(e)
 	if fn.Op == "id" && fn.Tok == "old" {
+		if mentionsResult(args[0]) {
+			e.fail("result used inside old(...): it would be read in the pre-state heap; bind it with a quantified variable instead (%s)", x)
+		}
 		n := e.child()
 		n.heap = e.old
 		return n.tr(args[0])
@@ -1330,4 +1359,19 @@ func (fr *Frame) checkEnsures(ret *ssa.Return, rs []*Val, h Heap) {
 		fr.oblig("ensures", "", label, f, en.Src, ret.Pos())
 	}
 	_ = token.NoPos
+}
+
+func mentionsResult(x *SX) bool {
+	if x == nil {
+		return false
+	}
+	if x.Op == "id" && x.Tok == "result" {
+		return true
+	}
+	for _, a := range x.Args {
+		if mentionsResult(a) {
+			return true
+		}
+	}
+	return false
 }
